@@ -72,7 +72,9 @@ impl<'t, 'a> ArrGen<'t, 'a> {
             0 => Primary::Lit(Lit::Num(self.t.pick(4) as f64)),
             1 => {
                 self.labels.insert("extend_beyond_end_candidate");
-                Primary::Lit(Lit::Num((4 + self.t.pick(36)) as f64))
+                // now and then far beyond the end (more than 64 / 256 elements)
+                let far = if self.t.chance(1, 12) { 60 + self.t.pick(240) } else { 0 };
+                Primary::Lit(Lit::Num((4 + self.t.pick(36) + far) as f64))
             }
             2 => pvar(&self.frac.clone()),
             3 => pvar(&self.neg.clone()),
@@ -348,7 +350,7 @@ impl<'t, 'a> ArrGen<'t, 'a> {
     }
 
     pub fn program(&mut self) -> Program {
-        let lim = Limits::default();
+        let lim = Limits { max_arr: 600, ..Limits::default() };
         let mut m = Machine::new("", Scoping::Dynamic, lim);
         let mut s: Vec<Stmt> = vec![];
         let mp = self.mparam.clone();
